@@ -90,9 +90,22 @@ Theorem agg_find_waits_on_both : forall a k i tau,
     /\ pend (a_ble a') k i (now (a_ble a) + tau)
     /\ snd (astep a (AFind k i tau)) = [].
 Proof. exact agg_find_registers. Qed.
-(* partial: timeouts and cancellation of the aggregate call are not stated as theorems (two lemmas about
-   [absorb] counting down would be needed); they are covered by the correspondence runs only.
-   Full statement: arun agrees with [expect] taken over the union of both transports' advertisements. *)
+(* both transport lookups of an aggregate call share its deadline; when the clock passes it the call gets
+   NotFound stamped with the deadline; cancelling it reports Cancelled at once *)
+Theorem agg_not_found_at_deadline : forall a k key1 key2 dl delta av1 av2,
+    aget k (a_tbl a) = Some 2%nat ->
+    keys_ok (a_ip a) av1 -> keys_ok (a_ble a) av2 ->
+    pend (a_ip a) k key1 dl -> pend (a_ble a) k key2 dl ->
+    dl <= now (a_ip a) + delta -> dl <= now (a_ble a) + delta ->
+    In (Done k NotFound dl) (snd (astep a (AAdvance delta))).
+Proof. exact agg_timeout. Qed.
+
+Theorem agg_cancelled : forall a k n,
+    aget k (a_tbl a) = Some n -> snd (astep a (ACancel k)) = [Done k Cancelled (now (a_ip a))].
+Proof. exact agg_cancel. Qed.
+(* partial: for the aggregate the step-level statements above are proved; the trace-level "exactly one,
+   prescribed outcome over every schedule" (the analogue of call_outcome_exact, with [expect] taken over
+   the union of both transports' advertisements) is not - it is covered by the correspondence runs only. *)
 
 (* ---- parsing: round trips -------------------------------------------------------------------- *)
 (* a TXT rdata rendered from fields (keys in lower or UPPER case, id in any case) and any address list
@@ -243,6 +256,8 @@ Print Assumptions waiting_call_outcome_exact.
 Print Assumptions agg_no_lost_wakeup_ble.
 Print Assumptions agg_no_lost_wakeup_mdns.
 Print Assumptions agg_find_waits_on_both.
+Print Assumptions agg_not_found_at_deadline.
+Print Assumptions agg_cancelled.
 Print Assumptions adv_parse_roundtrip_mdns.
 Print Assumptions rendered_txt_is_a_byte_string.
 Print Assumptions decimal_literal_roundtrip.
